@@ -5,7 +5,9 @@ from vlib import conclude
 import drvlib as D
 
 OBLIGATIONS = ['Cvise.C16.step_improvement_le', 'Cvise.C16.limit_stops', 'Cvise.C16.limit_zero_is_unlimited',
-               'Cvise.C09.bug_dirs_step', 'Cvise.D.isAccept_iff', 'Cvise.C16.limit_not_before', 'Cvise.C16.accepts_at_most_limit', 'Cvise.C09.report_dirs_within_limits', 'Cvise.C16.giveup_abandons']
+               'Cvise.C09.bug_dirs_step', 'Cvise.D.isAccept_iff', 'Cvise.C16.limit_not_before', 'Cvise.C16.accepts_at_most_limit', 'Cvise.C09.report_dirs_within_limits', 'Cvise.C16.giveup_abandons',
+               'Cvise.C16.start_gate_skips', 'Cvise.C16.start_gate_skips_main', 'Cvise.C16.start_gate_clears_at_named', 'Cvise.C16.reduce_starts_at_named_first',
+               'Cvise.C16.reduce_starts_at_named_last', 'Cvise.C16.reduce_named_absent', 'Cvise.C16.main_loop_starts_at_named', 'Cvise.C16.no_option_is_plain_reduce']
 
 
 def oracle(scen, obs):
@@ -72,56 +74,80 @@ def scens(ctx, n):
     return out
 
 
-def start_with_part(ctx):
-    """--start-with-pass: run_pass calls before the named pass do nothing at all (no candidate started, no commit), the
-    named pass and everything after it run normally.  Real code only (the L2 model has no such option): judged directly."""
-    import shutil
-    import tempfile
-    from pathlib import Path
-    import harness_drv as H
-    for k in range(40 if ctx.tier == 'quick' else 300):
+def start_with_scens(ctx, n):
+    """--start-with-pass scenarios: the named pass anywhere in first / main / last (or nowhere runnable: prerequisites
+    missing), optionally skip_initial; passes may occur several times"""
+    out = []
+    for k in range(n):
         s = D.gen_scenario(ctx.rng, {'p_contract': 1.0, 'files': [1, 2], 'p_twin': 0.0, 'p_fmt': 0.0, 'max_passes': 4})
         for p in s['passes']:
             p['maxT'] = ctx.rng.choice([None, None, 2])
-        s['cfg'] = {'cacheOn': False, 'silent': True}
-        order = s['groups']['first'] + s['groups']['main']
+        s['cfg'] = {'cacheOn': ctx.rng.random() < 0.3, 'silent': True}
+        if ctx.rng.random() < 0.4 and s['groups']['main']:
+            # move a pass to the last group so that the named pass can sit there
+            s['groups']['last'] = s['groups'].get('last', []) + [s['groups']['main'][-1]]
+        order = s['groups']['first'] + s['groups']['main'] + s['groups'].get('last', [])
         j = ctx.rng.randrange(len(order))
         target = s['passes'][order[j]]
         s['cfg']['startWith'] = f"TablePass::{target['name']}" + (f" ({target['maxT']} T)" if target['maxT'] is not None else '')
-        if ctx.rng.random() < 0.5:
+        if ctx.rng.random() < 0.3:
             target['prereq'] = False        # the named pass cannot run (tool missing): the passes before it still must not
+        if ctx.rng.random() < 0.2:
+            s['skipInitial'] = True
         s['budget_s'] = 8
         s['sw_order'], s['sw_j'] = order, j
-        judge_start_with(ctx, s, k)
+        out.append(s)
+    return out
 
 
-def judge_start_with(ctx, s, k):
+def start_with_part(ctx, diffs):
+    """--start-with-pass: run_pass calls before the named pass do nothing at all (no candidate started, no commit), the
+    named pass and everything after it run normally.  Judged directly on the real code, and the real run is compared
+    with the gated L2 model (D.reduceG) on the same scenario."""
+    rows = D.run_both(ctx, start_with_scens(ctx, 40 if ctx.tier == 'quick' else 400))
+    for k, (s, obs, real, model) in enumerate(rows):
+        if real != model:
+            diffs.append({'kind': 'start-with', 'scenario': s, 'real': real, 'model': model})
+        judge_start_with(ctx, s, k, obs)
+
+
+def judge_start_with(ctx, s, k, obs=None):
     import shutil
     import tempfile
     from pathlib import Path
     import harness_drv as H
-    order = s.get('sw_order') or (s['groups']['first'] + s['groups']['main'])
+    order = s.get('sw_order') or (s['groups']['first'] + s['groups']['main'] + s['groups'].get('last', []))
     j = s.get('sw_j')
     if j is None:
         j = next(i for i, pi in enumerate(order) if s['cfg']['startWith'].startswith('TablePass::' + s['passes'][pi]['name']))
-    if True:
+    if obs is None:
         d = Path(tempfile.mkdtemp(prefix='sw-', dir=ctx.scratch))
         try:
             obs = H.run_real(s, d, rng=ctx.rng)
         finally:
             shutil.rmtree(d, ignore_errors=True)
+    if True:
         ctx.count()
-        before = set(order[:j]) - {order[j]}
-        ran_before = [i for i in before if obs['stats'].get(i, (0, 0, 0))[2] > 0 and i not in order[j:]]
-        # a pass listed again after the named one legitimately runs then: only judge passes that occur before it exclusively
-        later = set(order[j:]) | set(s['groups']['last']) | set(s['groups']['main'])
-        ran_before = [i for i in ran_before if i not in later]
+        keys = H.pass_keys(s)
+        named = keys[order[j]]
+        runnable = lambda i: s['passes'][i].get('prereq', True)
+        # the first position in the dynamic order (first, main, last; skip_initial drops first) whose pass carries the named key and can run
+        dyn = ([] if s.get('skipInitial') else s['groups']['first']) + s['groups']['main'] + s['groups'].get('last', [])
+        hit = next((q for q, i in enumerate(dyn) if keys[i] == named and runnable(i)), None)
+        n_last = len(s['groups'].get('last', []))
+        may_run = set()
+        if hit is not None:
+            may_run = {keys[i] for i in dyn[hit:] if runnable(i)}
+            if hit < len(dyn) - n_last:          # cleared before or inside the main group: later main rounds run the whole group
+                may_run |= {keys[i] for i in s['groups']['main'] if runnable(i)}
+        ran = [i for i, v in obs['stats'].items() if v[2] > 0]
         sc = {'kind': 'start-with', 'scenario': s}
-        if ran_before:
-            ctx.report('pass-before-start-with-pass-ran', f"--start-with-pass {s['cfg']['startWith']}: pass {ran_before[0]} started candidates although it only occurs before it", sc)
-        started_any = any(v[2] > 0 for v in obs['stats'].values())
+        bad = [i for i in ran if i not in may_run]
+        if bad:
+            ctx.report('pass-before-start-with-pass-ran', f"--start-with-pass {s['cfg']['startWith']}: pass {bad[0]} started candidates although it only occurs before the named pass", sc)
+        started_any = bool(ran)
         marked = [m[1] for m in obs.get('marked', [])]
-        if obs['outcome'] == 'ok' and order[j] not in [i for i in marked] and s['passes'][order[j]].get('prereq', True):
+        if obs['outcome'] == 'ok' and hit is not None and named not in marked:
             ctx.report('start-with-pass-never-reached', f"run_pass was never called for {s['cfg']['startWith']}", sc)
         if started_any:
             ctx.nontrivial(('start-with', k))
@@ -139,13 +165,13 @@ def run(ctx):
     ctx.lean_gate(OBLIGATIONS)
     diffs = []
     rows = D.sweep(ctx, scens(ctx, 400 if ctx.tier == 'quick' else 6000), [oracle, oracle_zero], diffs, nontriv)
-    start_with_part(ctx)
+    start_with_part(ctx, diffs)
     ctx.sample({'scenario_key': D.scen_key(rows[3][0]), 'cfg': rows[3][0]['cfg'], 'consts': rows[3][0]['consts'], 'observed': rows[3][2]})
 
     def search(budget):
         D.sweep(ctx, scens(ctx, 1500), [oracle, oracle_zero], [], nontriv)
     conclude(ctx, diffs, search)
-    ctx.assumptions += ['--start-with-pass is judged on the real code only (direct oracle over per-pass statistics): the L2 model has no such option',
+    ctx.assumptions += ['--start-with-pass, skip_initial and missing prerequisites are part of the L2 model (D.runPassG / D.reduceG) and of the correspondence; the named pass is identified by repr(pass), as run_pass does',
                         'the give-up limit is part of the model (check: e.order > giveup) and of the scenario generator (small patched GIVEUP_CONSTANT, endless passes in C09)']
     return ctx.finish(obligations=OBLIGATIONS,
                       rule='limits drawn from {None,0,1,2,boundary}, small patched constants for give-up and directory caps; accepted-step log from a wrapper of process_result; '
